@@ -2,6 +2,7 @@
   C19 — units mirror the extended properties; Scalar ordering and XYData pairing hold.
 -/
 import NiVerif.Model.Units
+import NiVerif.Gen.Scalar
 
 namespace Props.C19
 open Model.Units
@@ -443,5 +444,21 @@ example : Scalar.order .lt ⟨.num false (.ratio 1 1), [86]⟩ ⟨.str [53], [10
 example : Scalar.order .lt ⟨.num false (.ratio 1 1), [86]⟩ ⟨.num true (.ratio 3 2), [86]⟩ = .ok true := by decide
 example : xyInit ⟨.ndarray, 1, 3, 1⟩ ⟨.ndarray, 1, 3, 1⟩ = .ok () := by decide
 example : run [] [.attrSet [1] (.str [65]), .dictSet [1] (.str [66]), .attrSet [1] (.other 5)] = [([1], .str [66])] := by decide
+
+/-! ### the tie by proof for Scalar's comparisons: `Gen/Scalar.lean` (translator tier T11) -/
+
+/-- the four ordering operators regenerated from the source are the model's `Scalar.order`: units check first (ValueError), then
+    numbers with numbers, strings with strings, anything else TypeError - with the operator of that very method -/
+theorem gen_scalar_order_eq_model (a b : Model.Units.Scalar) :
+    Gen.Scalar.lt a b = Model.Units.Scalar.order .lt a b ∧ Gen.Scalar.le a b = Model.Units.Scalar.order .le a b ∧
+    Gen.Scalar.gt a b = Model.Units.Scalar.order .gt a b ∧ Gen.Scalar.ge a b = Model.Units.Scalar.order .ge a b := by
+  unfold Gen.Scalar.lt Gen.Scalar.le Gen.Scalar.gt Gen.Scalar.ge Gen.Scalar.check_units Model.Units.Scalar.order
+  by_cases hu : a.units = b.units
+  · simp only [hu, ne_eq, not_true_eq_false, if_false, Except.bind]
+    cases ha : a.value <;> cases hb : b.value <;>
+      simp [Model.Units.Val.isNum, Model.Units.Val.isStr, Model.Units.cmpVal]
+  · simp [hu, Except.bind]
+
+theorem gen_scalar_eq_eq_model (a b : Model.Units.Scalar) : Gen.Scalar.eq a b = Model.Units.Scalar.eq a b := rfl
 
 end Props.C19
